@@ -92,6 +92,8 @@ struct Inst {
     tail: bool,
     /// an extra edge-less node (id n0) exists from the start, so that the matrix grows while removed ids are still vacant
     spare: bool,
+    /// instead of the removals: clear() the whole graph, then re-create every id (new_nodes = n0 + spare)
+    clear: bool,
 }
 
 fn listed(i: &Inst, a: usize, b: usize) -> bool {
@@ -163,7 +165,17 @@ macro_rules! history {
             }
         }
         // up to two removals (value n0 = none)
+        if inst.clear {
+            g.clear();
+            m = Simple::new(inst.directed);
+            if g.node_count() != 0 || g.edge_count() != 0 {
+                bad.push(format!("after clear(): node_count {} edge_count {}", g.node_count(), g.edge_count()));
+            }
+        }
         for nm in ["rm1", "rm2"] {
+            if inst.clear {
+                break;
+            }
             let x = if nm == "rm2" { inst.rm2 } else { ch.pick(nm, inst.n0) };
             if x < inst.n0 && m.node[x] {
                 let w = g.remove_node(NodeIndex::new(x));
@@ -178,10 +190,10 @@ macro_rules! history {
         }
         // new nodes: id reuse, then growth
         let mut news = vec![];
-        if inst.spare {
+        if inst.spare && !inst.clear {
             news.push(inst.n0);
         }
-        for k in 0..(if inst.spare { inst.new_nodes.saturating_sub(1) } else { inst.new_nodes }) {
+        for k in 0..(if inst.spare && !inst.clear { inst.new_nodes.saturating_sub(1) } else { inst.new_nodes }) {
             let y = g.add_node(100 + k as u8);
             if y.index() >= MAXN || m.node[y.index()] {
                 bad.push(format!("add_node returned a live or huge id {}", y.index()));
@@ -198,7 +210,7 @@ macro_rules! history {
         let olds: Vec<usize> = (0..inst.n0).filter(|&v| m.node[v]).collect();
         for (k, &y) in news.iter().enumerate() {
             if let Some(&o) = olds.get(k % olds.len().max(1)) {
-                if ch.bit(&format!("in_{}", k)) {
+                if (!inst.clear || k < 1) && ch.bit(&format!("in_{}", k)) {
                     wctr += 1;
                     let old = g.update_edge(NodeIndex::new(o), NodeIndex::new(y), wctr);
                     let want = m.set(o, y, Some(wctr));
@@ -215,7 +227,7 @@ macro_rules! history {
                     }
                 }
             }
-            if ch.bit(&format!("loop_{}", k)) {
+            if (!inst.clear || k + 3 >= inst.new_nodes) && ch.bit(&format!("loop_{}", k)) {
                 wctr += 1;
                 let old = g.update_edge(NodeIndex::new(y), NodeIndex::new(y), wctr);
                 let want = m.set(y, y, Some(wctr));
@@ -335,7 +347,7 @@ fn run_history(inst: &Inst, ch: &mut dyn Chooser) -> Vec<String> {
 
 impl Harness for Inst {
     fn name(&self) -> String {
-        format!("matrix/{}/{}/cap{}/n{}+{}/rm2_{}/tail{}", if self.directed { "di" } else { "un" }, if self.notzero { "notzero" } else { "option" }, self.cap0, self.n0, self.new_nodes, self.rm2, format!("{}{}", self.tail as u8, if self.spare { "/spare" } else { "" }))
+        format!("matrix/{}/{}/cap{}/n{}+{}/rm2_{}/tail{}", if self.directed { "di" } else { "un" }, if self.notzero { "notzero" } else { "option" }, self.cap0, self.n0, self.new_nodes, self.rm2, format!("{}{}", self.tail as u8, if self.spare { "/spare" } else if self.clear { "/clear" } else { "" }))
     }
     fn bounds(&self) -> String {
         let (b, i) = names(self);
@@ -393,17 +405,19 @@ fn make(tier: &str, _seed: u64) -> Vec<Box<dyn Harness>> {
         (false, true, 3, 3, 2),
     ] {
         for (rm2, tail) in [(n0, false), (2, true)] {
-            v.push(Box::new(Inst { directed, notzero, cap0, n0, new_nodes, rm2, tail, spare: false }));
+            v.push(Box::new(Inst { directed, notzero, cap0, n0, new_nodes, rm2, tail, spare: false, clear: false }));
         }
         // growth while two removed ids are still vacant
-        v.push(Box::new(Inst { directed, notzero, cap0, n0, new_nodes, rm2: 1, tail: false, spare: true }));
-        v.push(Box::new(Inst { directed, notzero, cap0, n0, new_nodes, rm2: 0, tail: true, spare: true }));
+        v.push(Box::new(Inst { directed, notzero, cap0, n0, new_nodes, rm2: 1, tail: false, spare: true, clear: false }));
+        v.push(Box::new(Inst { directed, notzero, cap0, n0, new_nodes, rm2: 0, tail: true, spare: true, clear: false }));
+        // clear() after symbolic initial edges, then every id is created again (and one more: growth after clear)
+        v.push(Box::new(Inst { directed, notzero, cap0, n0, new_nodes: n0 + 1, rm2: n0, tail: false, spare: false, clear: true }));
     }
     if thorough {
         for &(directed, notzero, cap0, n0, new_nodes) in &[(true, false, 0usize, 4usize, 3usize), (true, false, 5, 4, 3), (false, false, 4, 4, 3), (true, true, 0, 4, 2), (false, true, 0, 4, 2), (true, false, 8, 4, 2)] {
             for (rm2, tail) in [(n0, false), (2, true), (1, false), (0, true)] {
-                v.push(Box::new(Inst { directed, notzero, cap0, n0, new_nodes, rm2, tail, spare: false }));
-                v.push(Box::new(Inst { directed, notzero, cap0, n0, new_nodes, rm2, tail, spare: true }));
+                v.push(Box::new(Inst { directed, notzero, cap0, n0, new_nodes, rm2, tail, spare: false, clear: false }));
+                v.push(Box::new(Inst { directed, notzero, cap0, n0, new_nodes, rm2, tail, spare: true, clear: false }));
             }
         }
     }
@@ -412,7 +426,7 @@ fn make(tier: &str, _seed: u64) -> Vec<Box<dyn Harness>> {
 
 fn selftest() -> Result<String, String> {
     // a plain concrete history agrees with the model (all choices false / none)
-    let i = Inst { directed: true, notzero: false, cap0: 0, n0: 4, new_nodes: 2, rm2: 4, tail: false, spare: false };
+    let i = Inst { directed: true, notzero: false, cap0: 0, n0: 4, new_nodes: 2, rm2: 4, tail: false, spare: false, clear: false };
     let m = Model::new();
     struct Zero;
     impl Chooser for Zero {
